@@ -325,16 +325,23 @@ def run(shard, ctx):
         for i in range(shard["n"]):
             meter = rng.choice([(4, 4), (3, 4), (6, 8), (2, 2), (5, 4)])
             L = Fraction(*meter)
-            d = rng.choice([1, 2, 4])
+            d = rng.choice([1, 2, 4]) if rng.random() < 0.8 else rng.choice([3, 41, 7, 5, 1024])
             lst = gen(0)
             items = flat(lst, d, [])
             if any(l > L for (_c, l, _d) in items):
                 continue            # an item longer than a whole bar needs more than one split (not generated)
             t = Track()
             t.add_bar(Bar("G", meter))
+            prefill = []
+            if rng.random() < 0.35:
+                # the track already holds a few notes of odd lengths, so that items meet the bar line at odd places (an
+                # overhang of less than a thousandth of a whole note is still music)
+                for v in rng.sample([1024, 3, 7, 41, 5, 12, 128, 20, 2, 512], rng.randint(1, 3)):
+                    if t.bars[-1].place_notes("C", v):
+                        prefill.append(v)
             import copy
             arg = copy.deepcopy(lst)
-            w = {"meter": meter, "duration": d, "chords": lst}
+            w = {"meter": meter, "duration": d, "chords": lst, "track_already_holds": prefill}
             st, r = ctx.call(t.from_chords, arg, d)
             shape = {"nested_none": any(c is None and dep > 0 for (c, _l, dep) in items), "has_none": any(c is None for (c, _l, _d) in items)}
             if st != "ok":
@@ -345,6 +352,7 @@ def run(shard, ctx):
             got = []
             for (_b, v, nc) in t.get_notes():
                 got.append((None if nc is None else tuple(x.name for x in nc.notes), Fraction(1) / Fraction(v).limit_denominator(10 ** 6)))
+            got = got[len(prefill):]
             k, ok, why = 0, True, None
             nsplit = 0
             for (c, l, _dep) in items:
